@@ -268,6 +268,9 @@ def variants(root):
     B('k descends', 'kcoreness_centrality_bd', 'for k in range(N):', 'for k in range(N - 1, -1, -1):', 'K.k-ascends', file=E)
     B('membership from in-degree only', 'kcoreness_centrality_bd', 'ss = (np.sum(CIJkcore, axis=0) + np.sum(CIJkcore, axis=1)) > 0', 'ss = np.sum(CIJkcore, axis=0) > 0', 'K.membership', file=E)
     B('sizes from another k', 'kcoreness_centrality_bu', 'CIJkcore, kn[k] = kcore_bu(CIJ, k)', 'CIJkcore, kn[k] = kcore_bu(CIJ, k + 1)', 'K.core-and-size', file=E)
+    for fn in ('kcoreness_centrality_bd', 'kcoreness_centrality_bu'):
+        N('early return for an empty network', fn, '    for k in range(N):\n', '    if N == 0:\n        return coreness, kn\n    for k in range(N):\n', file=E)
+        B('small networks skip the loop', fn, '    for k in range(N):\n', '    if N < 4:\n        return coreness, kn\n    for k in range(N):\n', 'K.k-ascends', file=E)
     N('and-operator spelling', 'kcore_bu', 'np.logical_and(deg < k, deg > 0)', '(deg > 0) & (deg < k)')
     N('len spelling', 'score_wu', 'if ff.size == 0:', 'if len(ff) == 0:')
     return [v for v in out if v is not None]
